@@ -22,8 +22,11 @@ def load_prop(prop):
 
 def run_shard(mod, ctx):
     core.repo_import_check()
+    from vlib import interference
+    warmed = interference.warm_up()
     try:
         res = mod.run(ctx)
+        res.notes['in_process_interference_before_workload'] = 'done' if warmed else 'raised (ignored)'
     except core.Inconclusive as e:
         res = core.Result()
         res.inconclusive.append(str(e))
